@@ -1549,6 +1549,39 @@ func genWorld(r *rand.Rand, mesh *meshconfig.MeshConfig) *world {
 	for i := 0; i < nse; i++ {
 		w.genServiceEntry(r, i)
 	}
+	// twins: a second ServiceEntry of the same namespace for the same host(s) that the sidecar scope can merge with the
+	// first (same resolution, location, exportTo) but that declares the shared port NUMBERS under other names /
+	// protocols and adds a port of its own - two teams describing one external API differently.
+	if chance(r, 35) {
+		if ses := w.ofKind(gvk.ServiceEntry); len(ses) > 0 {
+			src := ses[r.Intn(len(ses))]
+			tw := src.Spec.(*networking.ServiceEntry).DeepCopy()
+			for _, p := range tw.Ports {
+				if chance(r, 70) {
+					switch strings.ToUpper(p.Protocol) {
+					case "HTTPS":
+						p.Protocol = "TLS"
+					case "TLS":
+						p.Protocol = "HTTPS"
+					case "HTTP":
+						p.Protocol = pick(r, []string{"HTTP2", "GRPC"})
+					case "TCP":
+						p.Protocol = "TLS"
+					default:
+						p.Protocol = "HTTP"
+					}
+					p.Name = fmt.Sprintf("%s-twin-%d", strings.ToLower(p.Protocol), p.Number)
+				}
+			}
+			if chance(r, 60) {
+				tw.Ports = append(tw.Ports, &networking.ServicePort{Number: 8443, Protocol: "TLS", Name: "tls-twin-extra"})
+			}
+			if len(tw.Hosts) > 1 && chance(r, 50) {
+				tw.Hosts = tw.Hosts[:1]
+			}
+			w.add(r, gvk.ServiceEntry, fmt.Sprintf("se-twin-%d", nse), src.Namespace, tw)
+		}
+	}
 	nwe := r.Intn(4)
 	for i := 0; i < nwe; i++ {
 		w.genWorkloadEntry(r, i)
